@@ -7,9 +7,10 @@ package main
 
 import (
 	"encoding/json"
-	"runtime/pprof"
 	"fmt"
 	"os"
+	"path/filepath"
+	"runtime/pprof"
 	"strconv"
 	"time"
 
@@ -48,6 +49,19 @@ func main() {
 			tier = "quick"
 		}
 		os.Exit(run(id, tier, ""))
+	case "inventory":
+		// writes tool/func_baseline.json: the function inventory the restructuring tolerance compares with
+		prog, err := core.Load(core.LoadOpts{SSA: true})
+		if err != nil {
+			fmt.Fprintln(os.Stderr, err)
+			os.Exit(2)
+		}
+		b, _ := json.MarshalIndent(map[string]any{"_doc": "names of all functions of the module when the rules were confirmed by hand; see DESIGN.md §7 (restructuring tolerance)", "functions": prog.FunctionInventory()}, "", " ")
+		if err := os.WriteFile(filepath.Join(core.VerifDir(), "tool", "func_baseline.json"), b, 0o644); err != nil {
+			fmt.Fprintln(os.Stderr, err)
+			os.Exit(2)
+		}
+		fmt.Println("wrote tool/func_baseline.json")
 	case "replay":
 		if len(os.Args) < 3 {
 			usage()
